@@ -45,7 +45,7 @@ prop("C01",
 prop("C02",
      lambda tier: [quic.rule_D8, quic.rule_T5_quic, quic.rule_T9_aad, quic.rule_T9_hp, quic.rule_epoch, quic.rule_D7b, quic.rule_frame_attrs,
                    B1_for("quic.quic_session", "quic.quic_dissector", "quic.quic_decryptor", "quic.quic_tls_parser", "quic.quic_output_builder"),
-                   pkn.rule_pn_spaces, progress.rule_A2, quic.rule_itermut],
+                   pkn.rule_pn_spaces, progress.rule_A2, quic.rule_itermut, frames.rule_T8, state.rule_attr_kinds],
      "Decides: output grouping merges frames only within one input datagram and emits closed groups with their own time/direction (D8); key-name agreement producer → "
      "dissector/session with role and epoch, list positions of QuicDecryptor keys, decryptor per packet type (T5q); AAD = header in wire order per header form, nonce "
      "construction (T9a); header-protection constants (T9h); key-phase epoch rule (EPO); connection-ID matching only on non-empty IDs, CID learning (D7b); frame "
@@ -55,7 +55,7 @@ prop("C02",
 
 prop("C03",
      lambda tier: [escape.rule_A1, escape.rule_A1_records, escape.rule_A1_quic_packets, progress.rule_A2, tls.rule_A4, tls.rule_D1, state.rule_D6_ownership,
-                   tcp.rule_framing, B2_for("session")],
+                   tcp.rule_framing, B2_for("session"), state.rule_attr_kinds],
      "Decides 'never makes the run fail' as an interprocedural may-raise analysis: every site of classes S1–S6 (raise, index/key lookup, non-total external call, "
      "possibly-unbound local, attribute not set by every constructor path, data-dependent division) reachable from an iteration of run()'s capture loop or "
      "finalisation loops is covered by a handler inside that iteration (A1), per record for TLS (A1r), the dissector absorbs its own faults (A1q); every data-driven "
@@ -65,7 +65,8 @@ prop("C03",
      ["the whitelist of total callables printed in vt/rules/escape.py"], controls=["c03-narrow-handler"])
 
 prop("C04",
-     lambda tier: [state.rule_D6_ownership, mirror.rule_B3_match, keylog.rule_D7, quic.rule_D7b, cli.rule_A6c, mirror.rule_B3_bind],
+     lambda tier: [state.rule_D6_ownership, mirror.rule_B3_match, keylog.rule_D7, quic.rule_D7b, cli.rule_A6c, mirror.rule_B3_bind, escape.rule_A1,
+                   state.rule_attr_kinds],
      "Decides: per-flow classes keep all state on the instance — no class-level mutable attributes, mutable defaults, global writes, shared key list never mutated by "
      "flow code (D6a); both match predicates test the full 4-tuple in both orientations (B3); secrets are selected by client-random equality on normalised case (D7); "
      "QUIC datagrams are matched by non-empty connection ID, else by 4-tuple (D7b); session creation gate and role binding (A6c, B3b). Together: a packet can only "
@@ -91,7 +92,7 @@ prop("C06",
 
 prop("C07",
      lambda tier: [output.rule_D2, tcp.rule_framing, mirror.rule_B3_bind, B2_for("output_builder", "session"), B1_for("quic.quic_output_builder", "output_builder"),
-                   quic.rule_D8, output.rule_D3],
+                   quic.rule_D8, output.rule_D3, mirror.rule_B3_match, output.rule_A7],
      "Decides: timestamps flow without arithmetic from the reader's (ts, buf) pair through Packet.timestamp / record.metadata resp. QuicPacket.ts to the emitted "
      "(frame, ts) pairs; handshake time = first record's first packet (D2); a record is attributed to exactly the packets overlapping its byte range (FR overlap); "
      "role binding from the first packet (B3b); address/port/MAC orientation per arm (B1/B2, A7 sender check); QUIC group time and direction travel together (D8); IP "
@@ -117,7 +118,7 @@ prop("C09",
      ["dpkt's block classes parse option lists correctly"], controls=["c09-label-too-long"])
 
 prop("C10",
-     lambda tier: [cli.rule_D4, cli.rule_A6c, mirror.rule_B3_bind, state.rule_D6_reinit],
+     lambda tier: [cli.rule_D4, cli.rule_A6c, mirror.rule_B3_bind, state.rule_D6_reinit, output.rule_A7, B2_for("output_builder"), quic.rule_D8],
      "Decides that configuration reaches every site: option table, int conversions, -m ⇒ keep_original_ports False, every server-port rewrite in both "
      "builders is control-dependent on that flag and the flag's provenance at every construction site is args.keep_original_ports, mapped/default port "
      "choice, client port never written (D4); Session creation dominated by the server-port membership test (A6c); the side whose port is a server port "
@@ -138,7 +139,7 @@ prop("C12",
      ["dpkt.pcapng / dpkt.pcap block classes"], controls=["c12-swap-le-class"])
 
 prop("C13",
-     lambda tier: [meta.rule_D5, quic.rule_D8, quic.rule_frame_attrs],
+     lambda tier: [meta.rule_D5, quic.rule_D8, quic.rule_frame_attrs, output.rule_A8],
      "Decides the effect set of the metadata switch: every statement control-dependent on it (post-dominator based edge dominance) only appends to the output "
      "channel (TLS) or selects CRYPTO/VN bytes (QUIC); application-record handlers, alert/handshake handling and the STREAM selection are not control-dependent "
      "on it; metadata records are appended verbatim; the switch's provenance is args.metadata.", ["none beyond the trusted base"],
@@ -157,7 +158,7 @@ prop("C14",
      controls=["c14-sha-before-sha256"])
 
 prop("C15",
-     lambda tier: [kdf.rule_T6, kdf.rule_T7_keyblock, kdf.rule_T5_tls, quic.rule_T5_quic, kdf.rule_B4, tables.rule_T3_iv],
+     lambda tier: [kdf.rule_T6, kdf.rule_T7_keyblock, kdf.rule_T5_tls, quic.rule_T5_quic, kdf.rule_B4, tables.rule_T3_iv, quic.rule_T9_hp],
      "Decides: every HKDF-Expand call site (TLS 1.3: 8, QUIC: 18 + Initial 6 + key update 6) derives the key/iv/hp of the role and epoch of the key-log label it is "
      "guarded by, with the RFC label bytes, declared lengths and output lengths; Initial keys independent of the negotiated suite; PRF labels, seed orders per purpose "
      "and PRF hash selection (T6); key block partitioned into consecutive gap-free slices MAC_c, MAC_s, key_c, key_s, IV_c, IV_s, by polynomial normal forms (T7k); "
@@ -167,7 +168,7 @@ prop("C15",
      ["cryptography's HKDF / HMAC / hash implementations"], controls=["c15-swap-randoms"])
 
 prop("C16",
-     lambda tier: [pkn.rule_E1, pkn.rule_D9_pkn, pkn.rule_pn_spaces, B1_for("quic.quic_session")],
+     lambda tier: [pkn.rule_E1, pkn.rule_D9_pkn, pkn.rule_pn_spaces, B1_for("quic.quic_session"), quic.rule_T9_hp],
      "Decides that get_full_packet_number *is* RFC 9000 A.3: the function is reduced by forward substitution to a decision tree over (largest, truncated, "
      "encoded length) and compared, in a linear/bitwise normal form, with the appendix (E1); integer-exact arithmetic (D9); per-direction tables, "
      "0-RTT/1-RTT share a space (PNS); direction arms mirror (B1). Does not decide histories (largest is updated before authentication).",
